@@ -149,72 +149,8 @@ pub proof fn lemma_push_keeps_earlier(s: Stk, x: int, k: int)
 }
 
 
-// ============================================================================== C08: CALL / RET nesting
-// Contracts of the interpreter productions (Verus unit `transfer`): `call` pushes current+1 on the call stack,
-// `ret` pops the most recent entry and continues there.  Lifted to histories: in any run in which no RET finds
-// the stack empty, a RET that closes a well-nested stretch resumes right after the CALL that opened it.
-pub enum CallOp { Call(int), Ret }   // Call(p): executed at position p - 1, i.e. pushes p
-
-pub open spec fn run_calls(stack: Seq<int>, ops: Seq<CallOp>) -> Seq<int>
-    decreases ops.len()
-{
-    if ops.len() == 0 { stack } else {
-        match ops[0] {
-            CallOp::Call(p) => run_calls(stack.push(p), ops.drop_first()),
-            CallOp::Ret => if stack.len() == 0 { stack } else { run_calls(stack.drop_last(), ops.drop_first()) },
-        }
-    }
-}
-/// nesting depth of a stretch, None when a RET would have no partner inside the stretch
-pub open spec fn depth(ops: Seq<CallOp>, d: int) -> Option<int>
-    decreases ops.len()
-{
-    if ops.len() == 0 { Some(d) } else {
-        match ops[0] {
-            CallOp::Call(_) => depth(ops.drop_first(), d + 1),
-            CallOp::Ret => if d == 0 { None } else { depth(ops.drop_first(), d - 1) },
-        }
-    }
-}
-/// a stretch that never returns below its own starting depth and ends `k` levels deeper leaves everything that
-/// was on the stack before it untouched
-pub proof fn lemma_nested_keeps_stack(base: Seq<int>, extra: Seq<int>, ops: Seq<CallOp>)
-    requires depth(ops, extra.len() as int) is Some,
-    ensures
-        run_calls(base + extra, ops).len() == base.len() + depth(ops, extra.len() as int)->0,
-        run_calls(base + extra, ops).subrange(0, base.len() as int) == base,
-    decreases ops.len()
-{
-    if ops.len() > 0 {
-        match ops[0] {
-            CallOp::Call(p) => {
-                assert((base + extra).push(p) == base + extra.push(p));
-                lemma_nested_keeps_stack(base, extra.push(p), ops.drop_first());
-            }
-            CallOp::Ret => {
-                assert(extra.len() > 0);
-                assert((base + extra).drop_last() == base + extra.drop_last());
-                lemma_nested_keeps_stack(base, extra.drop_last(), ops.drop_first());
-            }
-        }
-    } else {
-        assert((base + extra).subrange(0, base.len() as int) == base);
-    }
-}
-/// CALL at position p-1, any balanced stretch (procedures calling procedures to any depth), then RET:
-/// the RET pops exactly p, i.e. execution resumes immediately after the matching CALL.
-pub proof fn lemma_ret_resumes_after_matching_call(stack: Seq<int>, p: int, inner: Seq<CallOp>)
-    requires depth(inner, 0) == Some(0int),
-    ensures
-        run_calls(stack.push(p), inner) == stack.push(p),
-        run_calls(stack.push(p), inner).last() == p,
-{
-    lemma_nested_keeps_stack(stack.push(p), Seq::<int>::empty(), inner);
-    assert(stack.push(p) + Seq::<int>::empty() == stack.push(p));
-    let r = run_calls(stack.push(p), inner);
-    assert(r.len() == stack.len() + 1);
-    assert(r.subrange(0, r.len() as int) == r);
-}
+// (C08: the CALL / RET nesting lemma lives in unit `transfer`, next to the real `call` / `ret` productions, where bridge functions tie
+//  its step function to their contracts)
 
 // ================================================================================ C12: layout
 /// Loader contract (Verus unit `loader`): a definition of size n occupies counter .. counter+n and advances the
